@@ -1473,8 +1473,62 @@ func ruleDebug(c *Ctx) {
 	}
 	// renderer: first line is the source; rune arithmetic
 	if ra := c.FuncDecl("debug", "render.renderAssertExpr"); ra != nil {
-		s := c.sxN(ra, ra.Body.List)
-		ok := strings.HasPrefix(s, "[(AssignStmt Lhs:[$0] Tok::= Rhs:[(UnaryExpr Op:& (CompositeLit Type:(SelectorExpr strings Sel:Builder)))]) (ExprStmt (CallExpr Fun:(SelectorExpr $0 Sel:WriteString) Args:[(SelectorExpr $r Sel:src)])) (AssignStmt Lhs:[(SelectorExpr $r Sel:lines)] Tok:= Rhs:[(CallExpr Fun:append Args:[(SelectorExpr $r Sel:lines) $0])])")
+		// by data flow: the FIRST builder appended to r.lines is one whose first write is r.src (whether it is written before or
+		// after it is appended does not matter — the slice holds the pointer)
+		recv := recvObj(c, ra)
+		var first ast.Expr
+		inspectNoLit(ra.Body, func(x ast.Node) bool {
+			as, ok := x.(*ast.AssignStmt)
+			if !ok || len(as.Lhs) != 1 || len(as.Rhs) != 1 || first != nil {
+				return true
+			}
+			if se, ok := unparen(as.Lhs[0]).(*ast.SelectorExpr); ok && se.Sel.Name == "lines" && c.objOf(se.X) == recv {
+				if ce, ok := unparen(as.Rhs[0]).(*ast.CallExpr); ok && c.calleeName(ce) == "builtin.append" && len(ce.Args) == 2 {
+					first = ce.Args[1]
+				}
+			}
+			return true
+		})
+		ok := false
+		if first != nil {
+			alias := map[types.Object]bool{}
+			if o := c.objOf(first); o != nil {
+				alias[o] = true
+			}
+			for changed := true; changed; {
+				changed = false
+				inspectNoLit(ra.Body, func(x ast.Node) bool {
+					as, isAs := x.(*ast.AssignStmt)
+					if !isAs || len(as.Lhs) != len(as.Rhs) {
+						return true
+					}
+					for i, l := range as.Lhs {
+						lo, ro := c.objOf(l), c.objOf(as.Rhs[i])
+						if lo != nil && ro != nil && alias[lo] != alias[ro] {
+							alias[lo], alias[ro] = true, true
+							changed = true
+						}
+					}
+					return true
+				})
+			}
+			var firstWrite *ast.CallExpr
+			inspectNoLit(ra.Body, func(x ast.Node) bool {
+				ce, isCall := x.(*ast.CallExpr)
+				if !isCall || firstWrite != nil {
+					return true
+				}
+				if se, isSel := ce.Fun.(*ast.SelectorExpr); isSel && strings.HasPrefix(c.calleeName(ce), "strings.Builder.Write") && alias[c.objOf(se.X)] {
+					firstWrite = ce
+				}
+				return true
+			})
+			if firstWrite != nil && len(firstWrite.Args) == 1 {
+				if se, isSel := unparen(firstWrite.Args[0]).(*ast.SelectorExpr); isSel && se.Sel.Name == "src" && c.objOf(se.X) == recv {
+					ok = true
+				}
+			}
+		}
 		c.R.Check(ok, "debug.render.renderAssertExpr", "DB-4 first rendered line is the source", ra.Pos(), "lines[0] = src", "the source is not the first line of the report")
 	}
 	if rn := c.FuncDecl("debug", "render.render"); rn != nil {
@@ -1500,11 +1554,58 @@ func ruleDebug(c *Ctx) {
 		})
 	}
 	if ps := c.FuncDecl("debug", "render.placeString"); ps != nil {
-		s := c.sxN(ps, ps.Body.List)
-		ok := strings.HasPrefix(s, "[(ForStmt Cond:(BinaryExpr (CallExpr Fun:runeCount Args:[(CallExpr Fun:(SelectorExpr $p0 Sel:String))]) Op:< Y:$p2)") &&
-			strings.Contains(s, "(AssignStmt Lhs:[$0] Tok::= Rhs:[(BinaryExpr $p2 Op:- Y:1)])") &&
-			strings.Contains(s, "(AssignStmt Lhs:[$1] Tok::= Rhs:[(BinaryExpr $0 Op:+ Y:(CallExpr Fun:runeCount Args:[$p1]))])") &&
-			strings.Contains(s, "(ExprStmt (CallExpr Fun:replace Args:[$p0 $0 $1 $p1]))") && byteLens == 0
+		// (1) the line is padded with spaces to at least `col` runes BEFORE it is overwritten — as a loop that writes one space
+		// while runeCount(line) < col, or as one write of Repeat(" ", col - runeCount(line)) under pad > 0; (2) the overwritten
+		// range is [col-1, col-1+runeCount(str)), handed to replace together with the line and the text
+		tc := c.fnTerms(ps)
+		var params []string
+		for i := 0; i < 3; i++ {
+			params = append(params, fmt.Sprintf("p%d", i))
+		}
+		line, str, col := params[0], params[1], params[2]
+		count := "debug.runeCount(m:strings.Builder.String(" + line + "))"
+		var padAt, replAt token.Pos
+		okPad, okRepl := false, false
+		inspectNoLit(ps.Body, func(x ast.Node) bool {
+			switch n := x.(type) {
+			case *ast.ForStmt:
+				if n.Cond != nil && n.Init == nil && n.Post == nil {
+					ct := tc.condTerm(pathCond{e: n.Cond, pos: true})
+					if ct == "lt("+count+","+col+")" && len(n.Body.List) == 1 {
+						t := tc.stmtTerm(n.Body.List[0])
+						if t == "m:strings.Builder.WriteByte("+line+",const:32)" || t == "m:strings.Builder.WriteString("+line+",const:\" \")" || t == "m:strings.Builder.WriteRune("+line+",const:32)" {
+							okPad, padAt = true, n.Pos()
+						}
+					}
+				}
+			case *ast.IfStmt:
+				// if pad := col - runeCount(line); pad > 0 { line.WriteString(strings.Repeat(" ", pad)) }
+				full := tc.tr(n.Cond)
+				if n.Init != nil {
+					if as, ok := n.Init.(*ast.AssignStmt); ok && len(as.Lhs) == 1 && len(as.Rhs) == 1 {
+						tc.defs[c.objOf(as.Lhs[0])] = as.Rhs[0]
+						full = tc.tr(n.Cond)
+					}
+				}
+				padExpr := "sub(" + col + "," + count + ")"
+				if (full == "gt("+padExpr+",const:0)" || full == "lt(const:0,"+padExpr+")" || full == "lt("+count+","+col+")" || full == "gt("+col+","+count+")") && len(n.Body.List) == 1 {
+					t := tc.stmtTerm(n.Body.List[0])
+					if t == "m:strings.Builder.WriteString("+line+",strings.Repeat(const:\" \","+padExpr+"))" {
+						okPad, padAt = true, n.Pos()
+					}
+				}
+			case *ast.CallExpr:
+				if c.calleeName(n) == "debug.replace" && len(n.Args) == 4 {
+					a := []string{tc.tr(n.Args[0]), tc.tr(n.Args[1]), tc.tr(n.Args[2]), tc.tr(n.Args[3])}
+					start := "sub(" + col + ",const:1)"
+					if a[0] == line && a[1] == start && (a[2] == "add("+start+",debug.runeCount("+str+"))" || a[2] == "add(debug.runeCount("+str+"),"+start+")") && a[3] == str {
+						okRepl, replAt = true, n.Pos()
+					}
+				}
+			}
+			return true
+		})
+		ok := okPad && okRepl && padAt < replAt && byteLens == 0
 		c.R.Check(ok, "debug.render.placeString", "DB-5 pad to the column, overwrite [col-1, col-1+runes(str))", ps.Pos(), "rune arithmetic; the line is padded before it is sliced", "placeString no longer pads to the column and overwrites exactly the runes of the value")
 	} else {
 		c.R.Anchor("debug.render.placeString")
